@@ -13,6 +13,8 @@ def validate_encoded(string):
       "{} is not a valid numeric array string\n".format(repr(string))+
       "(it must be one of [fcsiCSI] followed by a comma-separated list of:"+
       " for f: floats; for csi: signed integers; for CSI: unsigned integers)")
+  # the values must be in the range of the declared subtype
+  gfapy.NumericArray.from_string(string)
 
 def validate_decoded(numeric_array):
   if isinstance(numeric_array, gfapy.NumericArray):
